@@ -914,7 +914,8 @@ theorem applyWrites_trace {g : Graph} {status : List Status} {pre : List Write} 
             simp only at hz hpz
             have : z = y := by
               have := congrArg Write.obj? hz
-              simpa [stmtOf_obj, Write.obj?] using this.symm
+              rw [stmtOf_obj] at this
+              simpa [Write.obj?] using this.symm
             subst this
             have := stmtOf_insert hpz hz.symm
             intro e; subst e; rw [hd] at this; simp at this
